@@ -198,7 +198,8 @@ theorem copyFile_content (base layer : MemFs) (name : Str) (bo : Nat) (hr : InRa
       ((copyFile base layer name bo).1.obj lf).mtime = (base.obj bo).mtime ∧
       InRange (copyFile base layer name bo).1 := by
   unfold copyFile copyFileFrom
-  simp only [hfile, Bool.false_eq_true, if_false, List.drop_zero, ne_eq, not_true_eq_false]
+  simp only [hfile, Bool.false_eq_true, if_false, List.drop_zero, ne_eq, not_true_eq_false, Bool.not_false,
+    Bool.true_and, gt_iff_lt, Nat.not_lt_zero, decide_false]
   generalize hL0 : (if fsExists layer (keyOfStr (Path.dir name)) = true then layer else (layer.mkdirAll (keyOfStr (Path.dir name)) 0o777).1) = L0
   have hr0 : InRange L0 := by
     rw [← hL0]; split
